@@ -69,6 +69,9 @@ type RespSpec struct {
 	// byte: "once" (the first arrival of this request only; a later arrival of the same request is answered with
 	// this response) | "always" (every arrival)
 	NoAnswer string `json:"noans,omitempty"`
+	// round 9: the origin writes the complete head and only part of the body it announced, then closes:
+	// "b0" (no body byte) | "half" | "m1" (all but the last byte of the message)
+	ShortAt string `json:"short,omitempty"`
 }
 
 type Exchange struct {
@@ -693,6 +696,8 @@ func (g *gen) add(s Scenario) {
 			big = max(big, e.Req.HdrBlock, e.Resp.HdrBlock)
 		}
 		s.AlsoTCP = big <= 3<<20 && ((g.thorough && i%53 == 0) || (!g.thorough && i%11 == 0))
+	case s.Mode == modeShortBody:
+		s.AlsoTCP = false // judged on the in-memory connections only (no quiet period involved)
 	case s.Mode == modeNoAnswer:
 		// over TCP only where the outcome cannot depend on whether the transport found the pooled upstream
 		// connection in time (a request that may never be replayed)
@@ -982,6 +987,7 @@ func replayPermitted(r ReqSpec, onReusedUpstreamConn bool) bool {
 // if an arrival was answered, otherwise an answer of the proxy's own with a 5xx status; the following exchange
 // and the probe are served as usual.
 func round8bFamilies(g *gen) {
+	shortBodyFamilies(g)
 	before := Exchange{ReqSpec{Method: "GET", Abs: true, Proto: "1.1", Framing: "none", Seg: "one"}, RespSpec{Status: 200, Framing: "cl", Size: 17}}
 	after := Exchange{ReqSpec{Method: "POST", Abs: true, Proto: "1.1", Framing: "cl", Size: 4097, Seg: "split"}, RespSpec{Status: 201, Framing: "chunked", Size: 4097}}
 	for _, m := range noAnswerMethods {
@@ -1691,6 +1697,93 @@ type originScript struct {
 }
 
 // noAnswerExchange returns the tag and the exchange of the scenario whose request the origin does not answer.
+// modeShortBody (round 9): the origin dies in the middle of a response body whose length it announced, and the
+// client has already pipelined its next request behind the one being answered.
+const modeShortBody = "origin_dies_mid_body"
+
+func shortBodyFamilies(g *gen) {
+	plain := Exchange{ReqSpec{Method: "GET", Abs: true, Proto: "1.1", Framing: "none", Seg: "one"}, RespSpec{Status: 200, Framing: "cl", Size: 17}}
+	for _, fr := range []string{"cl", "chunked"} {
+		for _, size := range []int{20, 4097, 70000} {
+			for _, at := range []string{"b0", "half", "m1"} {
+				for _, m := range []string{"GET", "POST"} {
+					req := ReqSpec{Method: m, Abs: true, Proto: "1.1", Framing: "none", Seg: "one"}
+					if m == "POST" {
+						req.Framing, req.Size = "cl", 33
+					}
+					x := Exchange{req, RespSpec{Status: 200, Framing: fr, Size: size, ShortAt: at}}
+					for _, conns := range [][][]Exchange{{{x, plain}}, {{plain, x, plain}}} {
+						g.add(Scenario{Family: "SB_origin_dies_mid_body", Conns: conns, Mode: modeShortBody})
+					}
+				}
+			}
+		}
+	}
+}
+
+// runShortBody: the exchanges before the short one run one by one; the request of the short exchange and the one
+// behind it leave the client in ONE write. One-to-one and in order: whatever the client is given as the response
+// to the short exchange consists of bytes the origin sent for it - a response that looks complete cannot be the
+// origin's (it never sent the whole body), and body bytes beyond the origin's are another response's.
+func runShortBody(env *h1harness.Env, s *Scenario, script *originScript, out *runOut, mu *sync.Mutex) {
+	report := func(k int, sym, detail string) {
+		out.findings = append(out.findings, finding{k, s.Mode, sym, detail})
+	}
+	cl, err := env.NewClient()
+	if err != nil {
+		out.findings = append(out.findings, finding{0, "harness", "client_dial_failed", err.Error()})
+		return
+	}
+	if out.quiet > 0 {
+		cl.QuietTimeout = out.quiet
+	}
+	addOutcome := func(o string) { out.outcome = append(out.outcome, "c0:"+o) }
+	exs := s.Conns[0]
+	for k, e := range exs {
+		t := tag(0, k)
+		if e.Resp.ShortAt == "" {
+			if err := cl.Send(buildReq(s.ID, 0, k, e.Req).segs...); err != nil {
+				report(k, "conn_closed_early", "writing request failed: "+err.Error())
+				return
+			}
+			res := cl.ReadResponse(e.Req.Method)
+			out.exchanges++
+			if res.HeadErr == "" {
+				out.reached[t] = true
+			}
+			if !checkResponse(s, e, t, k, res, script.resps[t], report, addOutcome, out, mu) {
+				return
+			}
+			continue
+		}
+		var both []byte
+		for _, seg := range buildReq(s.ID, 0, k, e.Req).segs {
+			both = append(both, seg...)
+		}
+		for _, seg := range buildReq(s.ID, 0, k+1, exs[k+1].Req).segs {
+			both = append(both, seg...)
+		}
+		if err := cl.Send(both); err != nil {
+			report(k, "conn_closed_early", "writing request failed: "+err.Error())
+			return
+		}
+		res := cl.ReadResponse(e.Req.Method)
+		out.exchanges++
+		out.reached[t] = true
+		want := script.resps[t]
+		addOutcome(fmt.Sprintf("short/%s/%d/%s/%s/%d", e.Resp.ShortAt, res.Status, res.HeadErr, res.BodyEnd, len(res.Body)))
+		what := fmt.Sprintf(" (the origin announced a %s body of %d bytes, sent its head and stopped at %q, then closed; the next request was already pipelined)", e.Resp.Framing, len(want.body), e.Resp.ShortAt)
+		if res.HeadErr == "" && res.Status == want.status {
+			if !bytes.HasPrefix(want.body, res.Body) {
+				report(k, "resp_body_foreign_bytes", fmt.Sprintf("the body given to the client (%d bytes) is not a prefix of the body the origin was sending; first difference at offset %d: %q", len(res.Body), firstDiff(want.body, res.Body), trunc(res.Body[min(len(res.Body), max(0, firstDiff(want.body, res.Body)-8)):], 60))+what)
+			} else if res.BodyEnd == h1harness.EndOK && !res.HeadOnly {
+				report(k, "resp_completed_beyond_origin_bytes", fmt.Sprintf("the client was given a complete response with %d body bytes", len(res.Body))+what)
+			}
+		}
+		return // what becomes of the pipelined request is not judged: it is not in `reached`
+	}
+}
+
 func noAnswerExchange(s *Scenario) (string, Exchange) {
 	for ci, exs := range s.Conns {
 		for k, e := range exs {
@@ -1728,6 +1821,22 @@ func (o *originScript) handler(conn, idx int, req *h1harness.RawRequest, perr er
 		o.answered[t]++
 	}
 	o.mu.Unlock()
+	if r != nil {
+		var c, k int
+		if n, _ := fmt.Sscanf(t, "c%de%d", &c, &k); n == 2 && c < len(o.sc.Conns) && k < len(o.sc.Conns[c]) {
+			if at := o.sc.Conns[c][k].Resp.ShortAt; at != "" {
+				head := bytes.Index(r.wire, []byte("\r\n\r\n")) + 4
+				cut := head
+				switch at {
+				case "half":
+					cut = head + (len(r.wire)-head)/2
+				case "m1":
+					cut = len(r.wire) - 1
+				}
+				return h1harness.Action{Write: [][]byte{r.wire[:cut]}, Close: true}
+			}
+		}
+	}
 	if r == nil {
 		return h1harness.Action{Write: [][]byte{[]byte("HTTP/1.1 599 Unknown Exchange\r\nContent-Length: 0\r\n\r\n")}}
 	}
@@ -2542,6 +2651,8 @@ func runScenario(s *Scenario, kind string, quiet time.Duration) *runOut {
 		runConnAge(env, s, script, out, &mu)
 	case modeNoAnswer:
 		runNoAnswer(env, s, script, out, &mu)
+	case modeShortBody:
+		runShortBody(env, s, script, out, &mu)
 	case "sequential_conns":
 		// one client connection after the other on the same proxy (shared transport, pooled upstream
 		// connections): every connection but the last is closed by the client after its exchanges
